@@ -89,6 +89,7 @@ func c09Units(tier string, seed int64) []Unit {
 		maxDev int
 		p      int
 		files  []string
+		short  bool // -short: rapid.checks/5 valid cases are promised, and the skip budget follows that number
 	}
 	var scens []scen
 	if quick {
@@ -112,6 +113,11 @@ func c09Units(tier string, seed int64) []Unit {
 			scens = append(scens, scen{n: n, base: BSkip, maxDev: d - 1, p: 11*n + 2})
 		}
 	}
+	// -short: N/5 cases are promised; everything else (skip budget 10 per promised case, counts in the messages) follows
+	for _, n := range []int{10, 25} {
+		scens = append(scens, scen{n: n, base: BPass, maxDev: 1, p: 11*(n/5) + 2, short: true})
+		scens = append(scens, scen{n: n, base: BSkip, maxDev: 1, p: 11*(n/5) + 2, short: true})
+	}
 	fileKinds := [][]string{{"pass"}, {"skip"}, {"fail"}, {"garbage"}, {"oldversion"}, {"empty"}, {"pass", "fail"}, {"garbage", "pass"}, {"skip", "skip"}, {"fail", "pass"}, {"oldversion", "fail"}}
 	for _, fk := range fileKinds {
 		scens = append(scens, scen{n: 2, base: BPass, maxDev: 2, p: 8, files: fk})
@@ -125,9 +131,15 @@ func c09Units(tier string, seed int64) []Unit {
 		for _, sd := range seeds {
 			sc, sd := sc, sd
 			name := fmt.Sprintf("C09/N=%d/base=%s/dev<=%d/files=%s/seed=%d", sc.n, sc.base, sc.maxDev, strings.Join(sc.files, "+"), sd)
+			if sc.short {
+				name += "/short"
+			}
 			units = append(units, Unit{Name: name, Run: func(c *Ctx) {
 				prog := uniqueProg(sc.base)
-				cfg := Config{Checks: sc.n, Seed: sd, ShrinkMS: 5, NoFailFile: true, Name: "TestC09"}
+				cfg := Config{Checks: sc.n, Seed: sd, ShrinkMS: 5, NoFailFile: true, Name: "TestC09", Short: sc.short}
+				if sc.short {
+					sc.n /= 5 // what Check promises under -short
+				}
 				// prepare fail files: each from a recording of a distinct PRNG seed
 				var files []c09File
 				assignFixed := []KV{}
